@@ -285,6 +285,24 @@ def import_kinds(ctx, r):
         for k in ("Inclusion", "Exclusion"):
             uses = any(x["k"] == "MethodCall" and x["m"] == "add_other_pred" for x in q.walk(arms[k]["body"]))
             r.ob(uses, f"resolve.rs:resolve_imports_file:{k}:not-filtered", RES, arms[k]["l"], f"{k} must add the imported namespace through the filtering add_other_pred")
+    # the filter must apply to every kind of child the namespace copies (declarations and child namespaces alike)
+    ns_impls = [f for impl in q.find_impls(items, self_ty="Namespace") for f in impl["items"] if f["k"] == "Fn" and f["name"] == "add_other_pred"]
+    if not ns_impls:
+        r.missing("Namespace::add_other_pred", RES)
+    else:
+        ap = ns_impls[0]
+        pname = next((q.pat_bindings(p["pat"])[0] for p in ap["params"] if not p.get("self") and "Fn" in p.get("ty", "")), "pred")
+        copies = 0
+        for lp in (x for x in q.walk(ap["body"]) if x["k"] == "For"):
+            adds = [y for y in q.walk(lp["body"]) if y["k"] == "MethodCall" and q.show(y["recv"]) == "self" and y["m"].startswith("add_")]
+            for y in adds:
+                copies += 1
+                guarded = any(z["k"] == "If" and q.show(z["c"]).startswith(pname + "(") and any(w is y for w in q.walk(z["t"])) for z in q.walk(lp["body"]))
+                what = q.show(lp["e"]).split(".")[-2] if "." in q.show(lp["e"]) else q.show(lp["e"])
+                r.ob(guarded, f"resolve.rs:Namespace::add_other_pred:{y['m']}:unfiltered", RES, y["l"],
+                     f"add_other_pred copies `{q.show(lp['e'])}` into the importing namespace with {y['m']} without testing the import predicate: a selective import (`use m.a`, `use m except E`) still brings in every {what[:-1] if what.endswith('s') else what} of the imported file",
+                     sample=f"add_other_pred: {y['m']} guarded by {pname}(name)")
+        r.count("children copied by add_other_pred", copies, 2, RES)
     if "Glob" in arms:
         r.ob(any(x["k"] == "MethodCall" and x["m"] == "add_other" for x in q.walk(arms["Glob"]["body"])), "resolve.rs:resolve_imports_file:Glob", RES, arms["Glob"]["l"], "glob import must add every name")
     if "As" in arms:
